@@ -315,10 +315,16 @@ def table_ops(rnd, nt, nb, n):
     else:
         pool = [base + i for i in range(40)] + [(1 << 64) - 1 - i for i in range(5)]
     ops = []
+    # half of the sequences re-store keys with the SAME move and depths but another score/kind (as a re-search does)
+    same = rnd.random() < 0.5
+    mvpool = [rnd.getrandbits(29) for _ in range(2)]
     for i in range(n):
         k = rnd.choice(pool)
         if rnd.random() < 0.55:
-            ops.append('i:%d:%d:%d:%d:%d:%d' % (k, rnd.randrange(3), rnd.getrandbits(29), rnd.randrange(40), rnd.randrange(40), rnd.randrange(-12000, 12000)))
+            if same:
+                ops.append('i:%d:%d:%d:%d:%d:%d' % (k, rnd.randrange(3), rnd.choice(mvpool), 3, 7, rnd.randrange(-12000, 12000)))
+            else:
+                ops.append('i:%d:%d:%d:%d:%d:%d' % (k, rnd.randrange(3), rnd.getrandbits(29), rnd.randrange(40), rnd.randrange(40), rnd.randrange(-12000, 12000)))
         else:
             ops.append('f:%d' % k)
     return ops
